@@ -6,7 +6,7 @@
 From Coq Require Import ZArith List Bool.
 From LV Require Import Enc.EncBase Enc.Subrect Enc.SubrectProofs Enc.Raw Enc.RRE Enc.Hextile Enc.Zlib Enc.ZRLE
      Enc.Update Enc.RawRREProofs Enc.HextileProofs Enc.SplitProofs Enc.StreamProofs
-     Enc.ZRLEProofs1 Enc.ZRLEProofs4 Enc.ZRLEFormatProofs Enc.UpdateProofs Enc.Tight Enc.TightProofs Enc.TightSplit Enc.TightSplitProofs Enc.TightSessionProofs Enc.TightUniform Enc.TightSessionFull Enc.TightSplitTotal Enc.BytesProofs Enc.TotalProofs Enc.ZRLETotal Enc.TightTotal Enc.SendAll Enc.ZRLESendProofs Enc.Session Enc.SessionProofs Enc.TightWire Enc.TightWireProofs Enc.Connection
+     Enc.ZRLEProofs1 Enc.ZRLEProofs4 Enc.ZRLEFormatProofs Enc.UpdateProofs Enc.Tight Enc.TightProofs Enc.TightSplit Enc.TightSplitProofs Enc.TightSessionProofs Enc.TightUniform Enc.TightSessionFull Enc.TightSplitTotal Enc.BytesProofs Enc.TotalProofs Enc.ZRLETotal Enc.TightTotal Enc.SendAll Enc.ZRLESendProofs Enc.Session Enc.SessionProofs Enc.TightWire Enc.TightWireProofs Enc.Connection Enc.RawSplit
      Dec.SpecPaint Dec.SpecRaw Dec.SpecRRE Dec.SpecHextile Dec.SpecZRLE Dec.SpecTight Dec.SpecUpdate Gen.Consts_C01.
 Import ListNotations.
 
@@ -315,6 +315,18 @@ Example C01_session_nonvacuous :
     [Update 0 0 3 2 [[1; 2; 2]; [1; 2; 3]]%Z; SetParams (mkParams 5 1 1 48 48 0 false); Update 1 0 2 2 [[1; 2; 2]; [1; 2; 3]]%Z] = Ok wire
     /\ length wire = 2.
 Proof. eexists. split; [vm_compute; reflexivity|reflexivity]. Qed.
+
+(* ---- finding F4 repaired (notes/fix_C01_5.diff: a Raw line longer than the update buffer goes out in pieces):
+   the repaired dispatch never closes the client, what it sends instead of closing decodes to the framebuffer,
+   and where send_rect delivers nothing changes ---- *)
+Theorem C01_raw_wide_repaired : forall W H scr p x y w h,
+  wf_grid W H scr -> grid_pix_ok (p_bypp p) scr -> x + w <= W -> y + h <= H ->
+  send_rect_split p x y w h scr <> Fallback /\
+  (forall rects, send_rect p x y w h scr = Ok rects -> send_rect_split p x y w h scr = Ok rects) /\
+  (send_rect p x y w h scr = Fallback ->
+   exists r, send_rect_split p x y w h scr = Ok [r] /\ rect_ok (p_bypp p) (p_cmode p) scr r /\
+             geom r = (x, y, w, h) /\ bytes_ok (wire_bytes r)).
+Proof. exact send_rect_split_ok. Qed.
 
 (* ---- the Tight wire layer (TightWire.v): four zlib streams that persist for the connection, stream id in
    bits 4-5 of the compression-control byte, reset bits 0-3 (honoured by the client, never set by this server),
